@@ -1,0 +1,155 @@
+//! Verification hooks.
+//!
+//! This module only exists when the crate is built with
+//! `--cfg routinator_verif`. It provides the small registry used by the
+//! verification harness in `/verif`: preemption points for driving thread
+//! schedules, a trace sink for recording events at linearisation points,
+//! numbered kill points for crash testing, and a few fault injection
+//! switches. Nothing in here does anything unless the harness (or the
+//! environment variables it sets for child processes) switches it on.
+
+use std::collections::HashSet;
+use std::io::Write;
+use std::sync::{Arc, Mutex, OnceLock, RwLock};
+use std::sync::atomic::{AtomicU64, AtomicUsize, Ordering};
+
+
+//------------ Preemption points ---------------------------------------------
+
+/// A schedule controller: called whenever a thread reaches a named point.
+pub trait Controller: Send + Sync {
+    fn reach(&self, point: &'static str);
+}
+
+static CONTROLLER: RwLock<Option<Arc<dyn Controller>>> = RwLock::new(None);
+
+/// Installs or removes the schedule controller.
+pub fn set_controller(controller: Option<Arc<dyn Controller>>) {
+    *CONTROLLER.write().unwrap_or_else(|e| e.into_inner()) = controller;
+}
+
+/// A preemption point. Returns immediately unless a controller is installed.
+pub fn preempt(point: &'static str) {
+    let ctl = CONTROLLER.read().unwrap_or_else(|e| e.into_inner()).clone();
+    if let Some(ctl) = ctl {
+        ctl.reach(point)
+    }
+}
+
+
+//------------ Trace events --------------------------------------------------
+
+static TRACE: Mutex<Option<Vec<String>>> = Mutex::new(None);
+static TRACE_SEQ: AtomicU64 = AtomicU64::new(0);
+
+thread_local! {
+    static THREAD_NAME: std::cell::RefCell<String>
+        = const { std::cell::RefCell::new(String::new()) };
+}
+
+/// Names the current thread for trace events.
+pub fn set_thread_name(name: &str) {
+    THREAD_NAME.with(|n| *n.borrow_mut() = name.to_string());
+}
+
+/// Returns the name given to the current thread (empty if none).
+pub fn thread_name() -> String {
+    THREAD_NAME.with(|n| n.borrow().clone())
+}
+
+/// Starts recording trace events.
+pub fn trace_start() {
+    *TRACE.lock().unwrap_or_else(|e| e.into_inner()) = Some(Vec::new());
+    TRACE_SEQ.store(0, Ordering::SeqCst);
+}
+
+/// Stops recording and returns the recorded events as JSON lines.
+pub fn trace_take() -> Vec<String> {
+    TRACE.lock().unwrap_or_else(|e| e.into_inner()).take().unwrap_or_default()
+}
+
+/// Records one event. Call this while holding the lock that protects the
+/// state change the event describes. `fields` are cheap scalars.
+pub fn trace(ev: &str, fields: &[(&str, i64)]) {
+    let mut sink = TRACE.lock().unwrap_or_else(|e| e.into_inner());
+    if let Some(sink) = sink.as_mut() {
+        let seq = TRACE_SEQ.fetch_add(1, Ordering::SeqCst) + 1;
+        let mut line = format!(
+            "{{\"seq\":{},\"t\":\"{}\",\"ev\":\"{}\"", seq, thread_name(), ev
+        );
+        for (key, value) in fields {
+            line.push_str(&format!(",\"{}\":{}", key, value));
+        }
+        line.push('}');
+        sink.push(line);
+    }
+}
+
+
+//------------ Kill points ---------------------------------------------------
+
+struct KillConfig {
+    /// Kill the process when the counter reaches this value.
+    at: Option<usize>,
+
+    /// Append the name of every kill point passed to this file.
+    log: Option<String>,
+}
+
+static KILL_CONFIG: OnceLock<KillConfig> = OnceLock::new();
+static KILL_COUNTER: AtomicUsize = AtomicUsize::new(0);
+
+/// A numbered kill point.
+///
+/// Does nothing unless `VERIF_KILL_LOG` (count and log the points passed)
+/// or `VERIF_KILL_AT` (kill the process with SIGKILL at the n-th point) is
+/// set in the environment.
+pub fn kill_point(name: &str) {
+    let config = KILL_CONFIG.get_or_init(|| KillConfig {
+        at: std::env::var("VERIF_KILL_AT").ok().and_then(|s| s.parse().ok()),
+        log: std::env::var("VERIF_KILL_LOG").ok(),
+    });
+    if config.at.is_none() && config.log.is_none() {
+        return
+    }
+    let count = KILL_COUNTER.fetch_add(1, Ordering::SeqCst) + 1;
+    if let Some(path) = config.log.as_ref() {
+        if let Ok(mut file) = std::fs::OpenOptions::new()
+            .create(true).append(true).open(path)
+        {
+            let _ = writeln!(file, "{} {}", count, name);
+        }
+    }
+    if config.at == Some(count) {
+        #[cfg(unix)]
+        unsafe {
+            nix::libc::kill(nix::libc::getpid(), nix::libc::SIGKILL);
+        }
+        loop {
+            std::thread::park();
+        }
+    }
+}
+
+
+//------------ Fault switches ------------------------------------------------
+
+static SWITCHES: Mutex<Option<HashSet<String>>> = Mutex::new(None);
+
+/// Sets or clears a named fault switch.
+pub fn set_switch(name: &str, on: bool) {
+    let mut switches = SWITCHES.lock().unwrap_or_else(|e| e.into_inner());
+    let set = switches.get_or_insert_with(HashSet::new);
+    if on {
+        set.insert(name.to_string());
+    }
+    else {
+        set.remove(name);
+    }
+}
+
+/// Returns whether a named fault switch is on.
+pub fn switch(name: &str) -> bool {
+    SWITCHES.lock().unwrap_or_else(|e| e.into_inner())
+        .as_ref().map(|set| set.contains(name)).unwrap_or(false)
+}
